@@ -114,12 +114,14 @@ _Bool vf_walk_stopped;                 /* a non-zero result has been returned   
 #define H_CANON_ENTRY(x) H_CANON(__CPROVER_loop_entry(x))
 #endif
 /* sweep invariant, stated for the ghost index g (arbitrary, so for every bucket):
- * buckets below the sweep position are clean; during a grow the added buckets are clean */
+ * buckets below the sweep position are clean; during a grow the added buckets are clean; and when NO
+ * rehash is pending every bucket in use is clean (the "settled" part: a flipped table stamp without a
+ * scheduled sweep would make the next resize skip every bucket -- seeded change C16-6) */
 #define H_CLEAN_AT(h, g) (H_BYTE((h)->bucket.at[g].cst) == H_BYTE((h)->bucket.cst))
 #define H_SWEEP(h, g)   (H_CANON((h)->bucket.cst) &&                                              \
                          ((g) >= H_SPAN(h) ||                                                         \
                           (H_CANON((h)->bucket.at[g].cst) &&                                      \
-                           (!H_PEND(h) || (((g) >= (h)->bucket.rh.clean) && ((g) < (h)->bucket.count)) || \
+                           ((H_PEND(h) && ((g) >= (h)->bucket.rh.clean) && ((g) < (h)->bucket.count)) || \
                             H_CLEAN_AT(h, g)))))
 #define H_USES_STUBS(h) ((h)->bucket.hash == vf_hash_stub1 &&                                        \
                          ((h)->bucket.rh.hash == NULL || (h)->bucket.rh.hash == vf_hash_stub2))
